@@ -1598,3 +1598,137 @@ def run_c15(ctx):
 
 
 REGISTRY["C15"] = dict(module="Properties_C15", run=run_c15)
+
+
+# ------------------------------------------------------------------------------------------
+# C13: allocation failure -> fatal-error function (fault injection on the real library)
+
+def c13_scenarios(rng):
+    long_str = b"x" * 200
+    sc = {
+        "read_string": ["init", "reads %s" % hx(b"a = 1; b = \"x\\ny\" \"z\"; g = { l = ( 1, [ 2, 3 ], { s = \"%s\"; } ); };\nh = 0x1F; f = 1.5e3;" % long_str),
+                        "dump"],
+        "read_error": ["init", "reads %s" % hx(b"a = 1;\nb = [ 1, \"x\" ];"), "dump"],
+        "read_file_include": ["init", "fs put %s %s" % (hx(b"i1.cfg"), hx(b"x = 1;\n@include \"i2.cfg\"\n")),
+                              "fs put %s %s" % (hx(b"i2.cfg"), hx(b"y = \"s\";\n")),
+                              "fs put %s %s" % (hx(b"top.cfg"), hx(b"a = 1;\n@include \"i1.cfg\"\nb = 2;\n")),
+                              "incdir %s" % hx(b"."), "readf %s" % hx(b"top.cfg"), "dump"],
+        "read_missing_include": ["init", "reads %s" % hx(b"a = 1;\n@include \"nosuch.cfg\"\n"), "dump"],
+        "build_api": ["init", "add . %s 1" % hx(b"g"), "add 0 %s 5" % hx(b"s"), "set s 0/0 %s" % hx(b"hello"),
+                      "add 0 %s 7" % hx(b"a")] + ["eset i 0/1 -1 %d" % i for i in range(20)] +
+                     ["add . %s 8" % hx(b"l"), "eset s 1 -1 %s" % hx(long_str), "eset f 1 -1 x3ff8000000000000", "dump"],
+        "modify_parsed": ["init", "option 128 1", "reads %s" % hx(b"a = \"old\"; g = { x = 1; y = 2; }; l = ( 1, 2 );"),
+                          "set s 0 %s" % hx(b"changed"), "add . %s 2" % hx(b"a"), "rm . %s" % hx(b"g.x"), "rmi 2 0",
+                          "add 1 %s 5" % hx(b"z"), "incdir %s" % hx(b"some/dir"), "dump"],
+        "write": ["init", "reads %s" % hx(b"a = 1.5; s = \"x\"; g = { l = ( 1, 2 ); };"), "write",
+                  "writef %s" % hx(b"out.cfg"), "clear", "dump"],
+        "deep": ["init", "reads %s" % hx(b"a = " + b"(" * 120 + b")" * 120 + b";"), "dump"],
+    }
+    return sc
+
+
+def run_c13(ctx):
+    res = Result()
+    exe = ctx.harness("fault")
+    runner = ctx.runner("fault")
+    scs = c13_scenarios(ctx.rng)
+    if ctx.replay:
+        body = "".join(l for l in open(ctx.replay, encoding="latin-1") if not l.startswith("#"))
+        scs = {"replay": [l for l in body.splitlines() if l]}
+    stats = {}
+    total = 0
+    import shutil as _sh
+
+    def run_k(script, k, k2=None):
+        wd = runner.workdir()
+        sf = os.path.join(wd, ".script")
+        open(sf, "w").write(script)
+        env = dict(os.environ)
+        env.pop("DRV_FAULT_K", None)
+        env.pop("DRV_FAULT_K2", None)
+        if k:
+            env["DRV_FAULT_K"] = str(k)
+        if k2:
+            env["DRV_FAULT_K2"] = str(k2)
+        try:
+            p = subprocess.run([exe, sf, wd], stdout=subprocess.PIPE, stderr=subprocess.PIPE, timeout=60, env=env)
+            rc, outp = p.returncode, p.stdout.decode("latin-1")
+        except subprocess.TimeoutExpired:
+            rc, outp = "HANG", ""
+        _sh.rmtree(wd, ignore_errors=True)
+        return rc, outp.splitlines()
+    for name, ops in scs.items():
+        script = "\n".join(ops) + "\n"
+        rc, base = run_k(script, None)
+        al = [l for l in base if l.startswith("ALLOCS ")]
+        if rc != 0 or not al:
+            res.corr_broken.append("scenario %s: fault-free run failed rc=%s" % (name, rc))
+            continue
+        n = int(al[0].split(" ")[1])
+        ks = list(range(1, n + 1))
+        if ctx.tier == "quick" and n > 120:
+            ks = sorted(set(list(range(1, 61)) + list(range(61, n + 1, 3)) + [n]))
+        stats[name] = {"allocations": n, "faults_injected": len(ks)}
+        for k in ks:
+            rc, out = run_k(script, k)
+            total += 1
+            fat = [l for l in out if l.startswith("FATAL")]
+            ok = rc == 0 and len(fat) == 1 and fat[0] == "FATAL fault_seen=1 at_alloc=%d" % k and out[-1] == fat[0]
+            if not ok:
+                what = ("crashed / was killed (status %s)" % rc) if rc != 0 else \
+                       ("returned normally although allocation #%d failed%s" % (
+                           k, "" if out[:len(base) - 1] == base[:-1] else " with a result that differs from the fault-free one")
+                        if not fat else "unexpected: %s" % fat)
+                res.violations.append(dict(name="fault_%s_%d" % (name, k), replay=(
+                    "# property C13 -- allocation #%d of scenario '%s' made to fail: the library %s\n"
+                    "# replay: DRV_FAULT_K=%d <fault build of harness/drv.c> <this script>\n%s#--- transcript tail:\n#%s\n" % (
+                        k, name, what, k, script, "\n#".join(out[-6:])))))
+                if len(res.violations) >= 3:
+                    break
+        if len(res.violations) >= 3:
+            break
+        # a handler that recovers (longjmp) instead of exiting: a later failure must be reported as well
+        for (k1, k2) in [(1, 1), (max(1, n // 2), 2), (2, max(1, n // 2)), (n, n)]:
+            rc, out = run_k(script, k1, k2)
+            total += 1
+            fat = [l for l in out if l.startswith("FATAL")]
+            if not (rc == 0 and len(fat) == 2 and fat[1] == "FATAL fault_seen=1 at_alloc=%d" % k2):
+                res.violations.append(dict(name="refault_%s_%d_%d" % (name, k1, k2), replay=(
+                    "# property C13 -- scenario '%s': after a first failure (allocation #%d) from which the fatal-error "
+                    "function recovered, a second failing allocation (#%d of the re-run) was not reported (status %s)\n"
+                    "# replay: DRV_FAULT_K=%d DRV_FAULT_K2=%d <fault build> <this script>\n%s#--- FATAL lines: %s\n" % (
+                        name, k1, k2, rc, k1, k2, script, fat))))
+                break
+    # known finding F19: unchecked strdup in the C++ exception classes (identified by census rows)
+    import re as _re
+    cen = open(os.path.join(COQ, "gen", "Census.v")).read()
+    rows = _re.findall(r'al_file := "([^"]+)"; al_fun := "([^"]+)"; al_callee := "([^"]+)"; al_line := \d+; al_class := (\w+)', cen)
+    raw_cpp = sorted(set(fn for f, fn, callee, cls in rows if f == "libconfigcpp.c++" and cls == "Raw" and callee != "new"))
+    listed = set()
+    for f in load_findings()["findings"]:
+        if f["property"] == "C13":
+            listed |= set(f.get("sites", []))
+    new_sites = [x for x in raw_cpp if x not in listed]
+    if new_sites:
+        res.violations.append(dict(name="census_cpp", replay="# property C13 -- unchecked allocation call sites in the C++ layer "
+                                   "that are not a recorded finding: %s\n(census: coq/gen/Census.v)\n" % new_sites))
+    elif raw_cpp:
+        res.known_hits.append("F19: C++ exception classes copy their strings with an unchecked strdup (%d functions: %s)" % (
+            len(raw_cpp), ", ".join(x.split("::")[-1] for x in raw_cpp)))
+    res.evaluations = total
+    res.distinct = total
+    res.exhaustive = ctx.tier != "quick"
+    res.distribution = stats
+    res.rule = ("for each scenario (read from string incl. errors, read_file with nested includes, missing include, build "
+                "through the API across the 16-element chunk boundary, modify a parsed configuration with overrides and "
+                "removals, write / write_file / clear, 120-level nesting) the library's own allocation requests are counted "
+                "(compile-time redirection of malloc/calloc/realloc/strdup in lib/*.c only) and each k-th one is made to "
+                "return NULL in a child process: the registered fatal-error function must run at exactly that request; "
+                "plus pairs of failures with a handler that recovers by longjmp")
+    res.samples = ["\n".join(scs[next(iter(scs))])[:400]]
+    return res
+
+
+REGISTRY["C13"] = dict(module="Properties_C13", run=run_c13,
+                       trusted=["tools/gen_census.py (clang -ast-dump=json census of allocation call sites; its own regression "
+                                "tests: tools/census_selftest.sh)"])
